@@ -85,8 +85,50 @@ def make_shim(h):
     return d, log
 
 
+def big_source(n):
+    unit = ["mov %rax,%rbx", "push %rax", "lea 0x369051fe(%rax,%rbx,4),%rcx", "call .+0x20", "xor %eax,%eax", "pop %rbx", "nop", "ret"]
+    body = "\n".join(" " + unit[i % len(unit)] for i in range(n))
+    return f".text\n{body}\n.section .text.hot,\"ax\"\n{body}\n"
+
+
+def run_big(shard, h, res, known):
+    """large objects: the objdump listing is far bigger than any I/O block (64 KiB .. several MiB); whole streams compared"""
+    n = shard["n"]
+    sp = h.write("c15big.s", big_source(n))
+    obj = h.path("c15big.o")
+    r = subprocess.run(["as", "--64", sp, "-o", obj], capture_output=True, text=True)
+    if r.returncode != 0:
+        raise HarnessError("as failed: " + r.stderr[:300])
+    for sections in (None, [".text"], [".text.hot", ".text"]):
+        conf = {} if sections is None else {"sections": sections}
+        cmd = ["objdump", "-d", "-M", "att"] + [x for s in (sections or []) for x in ("-j", s)] + [obj]
+        ref = subprocess.run(cmd, capture_output=True, text=True)
+        tpath = h.write("c15big.txt", ref.stdout)
+        for rule in (["pop", "nop", "ret"], ["zzzznomatch"]):
+            res.evaluations += 1
+            res.nontrivial += 1
+            case = {"family": "big", "n": n, "config": conf, "rule": make_rule_doc(rule, conf), "size": n}
+            try:
+                mb = h.mop(make_rule_doc(rule, conf), binary=True)
+                gs, g = h.match(mb, obj, ret="stream"), h.match(mb, obj, only_addr=True)
+                ma = h.mop(make_rule_doc(rule, conf))
+                es, e = h.match(ma, tpath, ret="stream"), h.match(ma, tpath, only_addr=True)
+            except Exception as ex:  # noqa
+                res.fail({**case, "clause": "raised", "expected": "result", "observed": repr(ex)}, known)
+                continue
+            if gs != es:
+                k = next((i for i, (a, b) in enumerate(zip(gs, es)) if a != b), min(len(gs), len(es)))
+                res.fail({**case, "clause": "stream", "expected": es[max(0, k - 80):k + 80], "observed": gs[max(0, k - 80):k + 80]}, known)
+            elif g != e:
+                res.fail({**case, "clause": "result", "expected": f"{len(e)} matches", "observed": f"{len(g)} matches"}, known)
+            # the text route must have seen the whole listing: as many records as instruction lines objdump printed
+            n_lines = sum(1 for l in ref.stdout.split("\n") if rm.classify_line(l)[0] == "inst")
+            if es.count("|") != n_lines:
+                res.fail({**case, "clause": "text-route-incomplete", "expected": f"{n_lines} records", "observed": f"{es.count('|')} records"}, known)
+
+
 def shards(tier):
-    sh = []
+    sh = [{"kind": "big", "n": n} for n in ([1500, 9000, 45000] if tier == "quick" else [1500, 9000, 45000, 120000])]
     for cls in (64, 32):
         bodies = range(len(BODIES) + len(RAW)) if cls == 64 else range(len(BODIES32) + len(RAW))
         for layout in range(6):
@@ -106,6 +148,8 @@ def body_text(cls, b):
 
 
 def run_shard(shard, tier, h, res, known):
+    if shard.get("kind") == "big":
+        return run_big(shard, h, res, known)
     cls = shard["cls"]
     body = body_text(cls, shard["body"])
     body2 = body_text(cls, (shard["body"] + 1) % (len(BODIES if cls == 64 else BODIES32)))
@@ -119,15 +163,17 @@ def run_shard(shard, tier, h, res, known):
     old_path = os.environ["PATH"]
     os.environ["PATH"] = shim_dir + os.pathsep + old_path
     try:
+        prior = []
         for sections in section_lists(names):
             conf = {} if sections is None else {"sections": sections}
+            prior.append(sections)
             cmd = ["objdump", "-d", "-M", "att"] + [x for s in (sections or []) for x in ("-j", s)] + [obj]
             ref = subprocess.run([c if i else "/usr/bin/objdump" for i, c in enumerate(cmd)], capture_output=True, text=True)
             for rule in RULES:
                 for mode in ("first", "all"):
                     res.evaluations += 1
                     case = {"family": "bin", "elfclass": cls, "source": src, "config": conf, "rule": make_rule_doc(rule, conf),
-                            "mode": mode, "size": len(src) + len(str(sections))}
+                            "mode": mode, "size": len(src) + len(str(sections)), "sections_lists_run_before": list(prior[:-1])}
                     open(log, "w").close()
                     try:
                         mb = h.mop(make_rule_doc(rule, conf), binary=True)
@@ -173,12 +219,23 @@ def controls(h):
 
 
 def replay(case, h):
+    if case.get("family") == "big":
+        r = type("R", (), {"evaluations": 0, "nontrivial": 0, "fails": []})()
+        r.fail = lambda c, k: r.fails.append(c)
+        run_big({"n": case["n"]}, h, r, set())
+        return bool(r.fails), str([f["clause"] for f in r.fails])
     sp = h.write("r.s", case["source"])
     obj = h.path("r.o")
     subprocess.run(["as", f"--{case['elfclass']}", sp, "-o", obj], check=True)
     sections = case["config"].get("sections")
     cmd = ["objdump", "-d", "-M", "att"] + [x for s in (sections or []) for x in ("-j", s)] + [obj]
     ref = subprocess.run(cmd, capture_output=True, text=True)
+    for s in case.get("sections_lists_run_before", []):     # the operations that preceded this one in the same process
+        try:
+            m0 = h.mop(make_rule_doc(["ret"], {} if s is None else {"sections": s}), binary=True)
+            h.match(m0, obj)
+        except Exception:  # noqa
+            pass
     try:
         mb = h.mop(case["rule"], binary=True)
         gs, g = h.match(mb, obj, ret="stream"), h.match(mb, obj, mode=case["mode"])
